@@ -38,6 +38,19 @@ struct Rng(u64);
 impl Rng { fn next(&mut self) -> u64 { self.0 ^= self.0 << 13; self.0 ^= self.0 >> 7; self.0 ^= self.0 << 17; self.0 }
   fn below(&mut self, n: u64) -> u64 { self.next() % n } }
 
+fn scan(wr: &mut Vec<u8>, log: &mut Vec<String>) {
+    let mut i = 0;
+    if wr.starts_with(b"PRI") { i = 24; }
+    while i + 9 <= wr.len() {
+        let len = ((wr[i] as usize)<<16)|((wr[i+1] as usize)<<8)|wr[i+2] as usize;
+        if i + 9 + len > wr.len() { break; }
+        let ty = wr[i+3]; let fl = wr[i+4]; let sid = u32::from_be_bytes([wr[i+5],wr[i+6],wr[i+7],wr[i+8]]) & 0x7fffffff;
+        let extra = if ty == 3 || ty == 8 { format!(" v={}", u32::from_be_bytes([wr[i+9],wr[i+10],wr[i+11],wr[i+12]])) } else { String::new() };
+        log.push(format!("t={} f={} s={} l={}{}", ty, fl, sid, len, extra));
+        i += 9 + len;
+    }
+    wr.drain(..i);
+}
 struct St { ss: Option<h2::SendStream<Bytes>>, rf: Option<h2::client::ResponseFuture>, id: u32 }
 
 fn main() {
@@ -119,7 +132,8 @@ fn main() {
             13 => { let bud = [0usize, 1, 9, 100, 20000, usize::MAX][rng.below(6) as usize]; io.0.lock().unwrap().budget = bud; desc = format!("budget {}", bud); }
             _ => { let r = Pin::new(&mut conn).poll(&mut cx); desc = format!("poll conn -> {:?}", r.is_ready()); if r.is_ready() { println!("#STEP {} {}", step, desc); break; } }
         }
-        println!("#STEP {} {}", step, desc);
+        let mut log = vec![]; scan(&mut io.0.lock().unwrap().wr, &mut log);
+        println!("#STEP {} {} | {}", step, desc, log.join("; "));
         println!("{:#?}", conn);
     }
 }
